@@ -16,6 +16,7 @@ package main
 
 import (
 	"bytes"
+	"context"
 	stdjson "encoding/json"
 	"fmt"
 	"math/rand"
@@ -27,6 +28,7 @@ import (
 	"sort"
 	"strconv"
 	"strings"
+	"time"
 	"unsafe"
 
 	gojson "github.com/goccy/go-json"
@@ -45,6 +47,76 @@ type C07Emb struct {
 	CC  [1]byte `json:"-"`
 	E02 [2]uint8
 	CD  [7]byte `json:"-"`
+}
+
+// C07Interior: an interface holds the address of X, a byte in the middle of the allocation
+type C07Interior struct {
+	CA [3]byte `json:"-"`
+	X  int8
+	CB [5]byte `json:"-"`
+	Y  uint16
+	CC [2]byte `json:"-"`
+}
+
+// what an interface at this place holds initially ( the place without its indices, so that the generator of the
+// documents, which sees no indices, knows it too ): 0 a string, 1 a float64, 2 and 6 nothing, 3 a *C07Emb,
+// 4 a *[]int16, 5 a *int8 pointing into the middle of a C07Interior
+func c07IfaceKind(path string) int {
+	h := uint32(2166136261)
+	skip := false
+	for i := 0; i < len(path); i++ {
+		switch {
+		case path[i] == '[':
+			skip = true
+		case path[i] == ']':
+			skip = false
+		case !skip:
+			h = (h ^ uint32(path[i])) * 16777619
+		}
+	}
+	return int(h>>7) % 7
+}
+
+var c07IfaceFit = map[int][]string{
+	3: {`{"E00":7,"E02":[1]}`, `{"E01":"via the interface","E02":[1,2,3],"e00":65535}`, `{"E02":[9,8],"E01":"again\n"}`, `{"E00":1}`, `{}`, `{"E02":[]}`},
+	4: {`[1,2,3,4,5]`, `[3]`, `[-1,2]`, `[]`, `[1,2,3,4,5,6,7,8,9,10,11,12,13]`},
+	5: {`-7`, `100`, `0`, `127`, `-128`},
+}
+
+// embedding over several levels: C07EmbMid holds an embedded pointer ( allocated by the decoder when a member
+// of it arrives ) and an embedded value that itself holds an embedded pointer
+type C07EmbDeep struct {
+	CA  [2]byte `json:"-"`
+	D00 int8
+	CB  [3]byte `json:"-"`
+	D01 string
+	CC  [1]byte `json:"-"`
+}
+
+type C07EmbLeaf struct {
+	CA  [1]byte `json:"-"`
+	L00 string
+	CB  [2]byte `json:"-"`
+	L01 [3]uint8
+	CC  [3]byte `json:"-"`
+}
+
+type C07EmbVal struct {
+	CA  [3]byte `json:"-"`
+	V00 [2]uint8
+	CB  [1]byte `json:"-"`
+	*C07EmbLeaf
+	CC [2]byte `json:"-"`
+}
+
+type C07EmbMid struct {
+	CA [1]byte `json:"-"`
+	*C07EmbDeep
+	CB  [2]byte `json:"-"`
+	M00 uint16
+	CC  [5]byte `json:"-"`
+	C07EmbVal
+	CD [1]byte `json:"-"`
 }
 
 var c07Leaves = []reflect.Type{
@@ -94,24 +166,43 @@ func c07Struct(r *rand.Rand, depth, nf int) reflect.Type {
 		if i == emb {
 			t := reflect.TypeOf(C07Emb{})
 			if r.Intn(2) == 0 {
+				t = reflect.TypeOf(C07EmbMid{})
+			}
+			name := t.Name()
+			if r.Intn(2) == 0 {
 				t = reflect.PtrTo(t)
 			}
-			fs = append(fs, reflect.StructField{Name: "C07Emb", Type: t, Anonymous: true})
+			fs = append(fs, reflect.StructField{Name: name, Type: t, Anonymous: true})
 		} else {
 			t := c07Type(r, depth)
 			f := reflect.StructField{Name: fmt.Sprintf("F%02d", i), Type: t}
-			switch t.Kind() {
-			case reflect.Int8, reflect.Int16, reflect.Int32, reflect.Int64, reflect.Int, reflect.Uint8, reflect.Uint16,
-				reflect.Uint32, reflect.Uint64, reflect.Uint, reflect.Bool:
-				if r.Intn(5) == 0 {
-					f.Tag = reflect.StructTag(fmt.Sprintf(`json:"F%02d,string"`, i))
-				}
+			if c07StringTagKind(t) && r.Intn(5) == 0 {
+				f.Tag = reflect.StructTag(fmt.Sprintf(`json:"F%02d,string"`, i))
 			}
 			fs = append(fs, f)
 		}
 		fs = append(fs, c07Canary(i+1, r))
 	}
 	return reflect.StructOf(fs)
+}
+
+// c07StringTagKind: the kinds the ,string option applies to: strings, floats, integers, booleans, held directly or
+// behind one pointer
+func c07StringTagKind(t reflect.Type) bool {
+	if t.Kind() == reflect.Ptr && t.Name() == "" {
+		t = t.Elem()
+	}
+	switch t.Kind() {
+	case reflect.Int8, reflect.Int16, reflect.Int32, reflect.Int64, reflect.Int, reflect.Uint8, reflect.Uint16,
+		reflect.Uint32, reflect.Uint64, reflect.Uint, reflect.Bool, reflect.Float32, reflect.Float64, reflect.String:
+		return t.PkgPath() == ""
+	}
+	return false
+}
+
+// c07QuoteLit writes a JSON text as the contents of a JSON string
+func c07QuoteLit(s string) string {
+	return `"` + strings.NewReplacer(`\`, `\\`, `"`, `\"`).Replace(s) + `"`
 }
 
 func c07IsCanary(f reflect.StructField) bool {
@@ -138,6 +229,7 @@ type c07Track struct {
 	guards   []c07Guard
 	elem     unsafe.Pointer
 	elemN    int
+	pointees []c07Guard // what the pointers held by interfaces point to ( statistics: was it decoded into? )
 }
 
 // c07Init fills v (addressable) with the recognisable initial value. tr == nil: no tracking.
@@ -164,11 +256,34 @@ func c07Init(v reflect.Value, path string, tr *c07Track, r *rand.Rand) {
 	case reflect.String:
 		v.SetString(strings.Clone("init-" + path))
 	case reflect.Interface:
-		switch r.Intn(3) {
+		// 3..5: the interface holds a pointer: decoding goes through it into storage that has canaries of its own
+		// ( a struct, a slice with guards behind its capacity, a one-byte field in the middle of a struct )
+		sub := func(n reflect.Value, into reflect.Value) {
+			if tr != nil {
+				pe, pn := tr.elem, tr.elemN
+				tr.elem, tr.elemN = nil, 0
+				c07Init(into, path+".(*)", tr, r)
+				tr.elem, tr.elemN = pe, pn
+				tr.pointees = append(tr.pointees, c07Guard{into, c07Snap(into), path + ".(*)"})
+			} else {
+				c07Init(into, path+".(*)", nil, r)
+			}
+			v.Set(n)
+		}
+		switch c07IfaceKind(path) {
 		case 0:
 			v.Set(reflect.ValueOf(strings.Clone("iface-init")))
 		case 1:
 			v.Set(reflect.ValueOf(float64(7)))
+		case 3:
+			n := reflect.New(reflect.TypeOf(C07Emb{}))
+			sub(n, n.Elem())
+		case 4:
+			n := reflect.New(reflect.TypeOf([]int16{}))
+			sub(n, n.Elem())
+		case 5:
+			n := reflect.New(reflect.TypeOf(C07Interior{}))
+			sub(n.Elem().Field(1).Addr(), n.Elem())
 		}
 	case reflect.Array:
 		for i := 0; i < v.Len(); i++ {
@@ -303,10 +418,16 @@ func c07SnapTo(v reflect.Value, b *strings.Builder) {
 			return
 		}
 		keys := v.MapKeys()
-		sort.Slice(keys, func(i, j int) bool { return keys[i].String() < keys[j].String() })
+		kt := func(k reflect.Value) string {
+			if k.Kind() == reflect.String {
+				return k.String()
+			}
+			return fmt.Sprint(k.Interface())
+		}
+		sort.Slice(keys, func(i, j int) bool { return kt(keys[i]) < kt(keys[j]) })
 		b.WriteString("m{")
 		for _, k := range keys {
-			fmt.Fprintf(b, "%q:", k.String())
+			fmt.Fprintf(b, "%q:", kt(k))
 			c07SnapTo(v.MapIndex(k), b)
 			b.WriteString(" ")
 		}
@@ -467,6 +588,9 @@ func c07Scalar(r *rand.Rand, t reflect.Type, bad bool) string {
 	return "null"
 }
 
+// what the generators of types and documents produced ( copied into the counters at the end of the run )
+var c07GenStat = map[string]int64{}
+
 // c07Value writes a JSON value for type t; addressed paths are recorded by the struct case.
 func c07Value(r *rand.Rand, t reflect.Type, path string, addr map[string]bool, b *strings.Builder, badRate, depth int) {
 	if r.Intn(100) < badRate {
@@ -482,7 +606,14 @@ func c07Value(r *rand.Rand, t reflect.Type, path string, addr map[string]bool, b
 	switch t.Kind() {
 	case reflect.Interface:
 		addr[path] = true
-		b.WriteString([]string{`null`, `1`, `"x\n"`, `[1,"a",{"k":null}]`, `{"a":[true],"b":{"c":1.5}}`, `true`}[r.Intn(6)])
+		// the last five fit what c07Init may have put behind the interface: *C07Emb, *[]int16, *int8
+		if fit := c07IfaceFit[c07IfaceKind(path)]; fit != nil && r.Intn(4) > 0 {
+			// what c07Init has put behind this interface is a pointer: a document that can be decoded through it
+			b.WriteString(fit[r.Intn(len(fit))])
+			return
+		}
+		b.WriteString([]string{`null`, `1`, `"x\n"`, `[1,"a",{"k":null}]`, `{"a":[true],"b":{"c":1.5}}`, `true`,
+			`{"E00":7,"E02":[1]}`, `-7`, `[1,2,3,4,5]`}[r.Intn(9)])
 	case reflect.Array:
 		addr[path] = true
 		if r.Intn(12) == 0 {
@@ -509,12 +640,24 @@ func c07Value(r *rand.Rand, t reflect.Type, path string, addr map[string]bool, b
 			return
 		}
 		if t.Elem().Kind() == reflect.Uint8 {
-			b.WriteString([]string{`""`, `"AQID"`, `"QUJDREVGRw=="`}[r.Intn(3)])
+			// a string in base64, or the bytes as an array of numbers ( the slice decoder with elements of size 1 )
+			k := r.Intn(7)
+			if k >= 3 {
+				c07GenStat["doc_byte_slice_as_array_of_numbers"]++
+			}
+			b.WriteString([]string{`""`, `"AQID"`, `"QUJDREVGRw=="`, `[1,2,3]`, `[]`, `[255, 0, 7, 8, 9, 10, 11, 12, 13, 14, 15, 16, 17]`, `[ 1 ]`}[k])
 			return
 		}
 		m := []int{0, 1, 2, 3, 5, 7, 9, 12}[r.Intn(8)]
 		if depth > 2 && m > 5 {
 			m = 5
+		}
+		// now and then many elements ( the working array is doubled again and again, the result leaves the small size
+		// classes of the allocator ), for elements whose text is short
+		if ek := t.Elem().Kind(); depth <= 1 && r.Intn(12) == 0 && ek != reflect.Slice && ek != reflect.Map && ek != reflect.Struct && ek != reflect.Ptr &&
+			ek != reflect.Interface && (ek != reflect.Array || t.Elem().Size() <= 8) {
+			m = []int{16, 17, 33, 70, 300, 1100}[r.Intn(6)]
+			c07GenStat["doc_slice_of_many_elements"]++
 		}
 		b.WriteString("[")
 		for i := 0; i < m; i++ {
@@ -574,7 +717,12 @@ func c07Value(r *rand.Rand, t reflect.Type, path string, addr map[string]bool, b
 					b.WriteString("null") // leaves the field as it is: nothing is stored, whatever the width of the field
 					return
 				}
-				b.WriteString(`"` + c07Scalar(r, ft, r.Intn(100) < badRate) + `"`)
+				st := ft
+				if st.Kind() == reflect.Ptr {
+					st = st.Elem()
+				}
+				c07GenStat["doc_string_option_on_"+ft.Kind().String()]++
+				b.WriteString(c07QuoteLit(c07Scalar(r, st, r.Intn(100) < badRate)))
 				return
 			}
 			c07Value(r, ft, fpath, addr, b, badRate, depth+1)
@@ -585,23 +733,40 @@ func c07Value(r *rand.Rand, t reflect.Type, path string, addr map[string]bool, b
 				continue
 			}
 			if f.Anonymous {
-				et := f.Type
-				fpath := path + "." + f.Name
-				if et.Kind() == reflect.Ptr {
-					et = et.Elem()
-				}
-				for j := 0; j < et.NumField(); j++ {
-					ef := et.Field(j)
-					if c07IsCanary(ef) || r.Intn(2) == 0 {
-						continue
+				// the members promoted from embedded structs, over every level; behind an embedded pointer the
+				// pointer itself is what the document addresses ( the decoder may allocate it )
+				var promoted func(ft reflect.Type, fpath, ptrPath string)
+				promoted = func(ft reflect.Type, fpath, ptrPath string) {
+					if ft.Kind() == reflect.Ptr {
+						ft = ft.Elem()
+						if ptrPath == "" {
+							ptrPath = fpath
+						}
 					}
-					if f.Type.Kind() == reflect.Ptr {
-						addr[fpath] = true
-						emit(ef.Name, ef.Type, fpath, false)
-					} else {
-						emit(ef.Name, ef.Type, fpath+"."+ef.Name, false)
+					for j := 0; j < ft.NumField(); j++ {
+						ef := ft.Field(j)
+						if c07IsCanary(ef) {
+							continue
+						}
+						if ef.Anonymous {
+							promoted(ef.Type, fpath+"."+ef.Name, ptrPath)
+							continue
+						}
+						if r.Intn(2) == 0 {
+							continue
+						}
+						if n := strings.Count(fpath[len(path):], "."); n >= 2 {
+							c07GenStat["doc_member_promoted_through_"+strconv.Itoa(n)+"_levels"]++
+						}
+						if ptrPath != "" {
+							addr[ptrPath] = true
+							emit(ef.Name, ef.Type, ptrPath, false)
+						} else {
+							emit(ef.Name, ef.Type, fpath+"."+ef.Name, false)
+						}
 					}
 				}
+				promoted(f.Type, path+"."+f.Name, "")
 				continue
 			}
 			if r.Intn(5) < 2 {
@@ -634,24 +799,93 @@ type c07Case struct {
 	addr    map[string]bool
 	mode    int // 0 buffer, k>0 stream with pieces of k bytes
 	checkUn bool
+	entry   int // which entry point / option set decodes (c07EntryName); 0 = Unmarshal resp. Decoder.Decode
+	failAt  int // stream mode: the reader fails with an error once this many bytes are delivered (<0: never)
 }
 
 func c07Describe(c *c07Case) map[string]string {
 	return map[string]string{"type": c.typ.String(), "init_seed": strconv.FormatInt(c.seed, 10), "dest_field": strconv.Itoa(c.field),
-		"doc": string(c.doc), "doc_hex": hx(c.doc), "mode": strconv.Itoa(c.mode)}
+		"doc": string(c.doc), "doc_hex": hx(c.doc), "mode": strconv.Itoa(c.mode), "entry": c07EntryName(c), "reader_fails_at": strconv.Itoa(c.failAt)}
+}
+
+// entry points and option sets.  Buffer mode: 0 Unmarshal, 1 UnmarshalNoEscape, 2 UnmarshalContext,
+// 3 UnmarshalWithOption(DecodeFieldPriorityFirstWin).  Stream mode: 0 Decode, 1 DecodeContext,
+// 2 DecodeWithOption(DecodeFieldPriorityFirstWin), 3 DisallowUnknownFields + Decode, 4 UseNumber + Decode.
+// None of them changes what the property demands: canaries, guards, well-formed headers, no aliasing, and the
+// fields a document does not name keep their contents (first-win stores into fewer fields, never into others).
+var c07BufEntries = []string{"Unmarshal", "UnmarshalNoEscape", "UnmarshalContext", "UnmarshalWithOption(FirstWin)"}
+var c07StreamEntries = []string{"Decode", "DecodeContext", "DecodeWithOption(FirstWin)", "DisallowUnknownFields+Decode", "UseNumber+Decode"}
+
+func c07EntryName(c *c07Case) string {
+	if c.mode == 0 {
+		return c07BufEntries[c.entry%len(c07BufEntries)]
+	}
+	return c07StreamEntries[c.entry%len(c07StreamEntries)]
+}
+
+type c07CtxKey struct{}
+
+// a reader that fills every Read completely: the stream buffer then grows by doubling ( 512, 1024, ... ) instead
+// of by the trickle of a small piece size, and the "buffer filled" branch of Stream.read is taken
+const c07FullReads = 1 << 20
+
+// c07PickEntry draws the entry point of a case: the plain one half of the time
+func c07PickEntry(r *rand.Rand, c *c07Case) {
+	c.entry, c.failAt = 0, -1
+	if r.Intn(2) == 0 {
+		if c.mode == 0 {
+			c.entry = r.Intn(len(c07BufEntries))
+		} else {
+			c.entry = r.Intn(len(c07StreamEntries))
+		}
+	}
+	if c.mode > 0 && len(c.doc) > 1 && r.Intn(12) == 0 {
+		c.failAt = r.Intn(len(c.doc))
+	}
 }
 
 func c07Decode(c *c07Case, dst interface{}, in []byte, std bool) error {
+	failAt := -1
+	if c.failAt >= 0 && c.failAt < len(in) {
+		failAt = c.failAt
+	}
 	if std {
 		if c.mode == 0 {
 			return stdjson.Unmarshal(in, dst)
 		}
-		return stdjson.NewDecoder(&pieceReader{b: in, size: c.mode, failAt: -1}).Decode(dst)
+		d := stdjson.NewDecoder(&pieceReader{b: in, size: c.mode, failAt: failAt})
+		switch c07EntryName(c) {
+		case "DisallowUnknownFields+Decode":
+			d.DisallowUnknownFields()
+		case "UseNumber+Decode":
+			d.UseNumber()
+		}
+		return d.Decode(dst)
 	}
+	ctx := context.WithValue(context.Background(), c07CtxKey{}, "c07")
 	if c.mode == 0 {
+		switch c07EntryName(c) {
+		case "UnmarshalNoEscape":
+			return gojson.UnmarshalNoEscape(in, dst)
+		case "UnmarshalContext":
+			return gojson.UnmarshalContext(ctx, in, dst)
+		case "UnmarshalWithOption(FirstWin)":
+			return gojson.UnmarshalWithOption(in, dst, gojson.DecodeFieldPriorityFirstWin())
+		}
 		return gojson.Unmarshal(in, dst)
 	}
-	return gojson.NewDecoder(&pieceReader{b: in, size: c.mode, failAt: -1}).Decode(dst)
+	d := gojson.NewDecoder(&pieceReader{b: in, size: c.mode, failAt: failAt})
+	switch c07EntryName(c) {
+	case "DecodeContext":
+		return d.DecodeContext(ctx, dst)
+	case "DecodeWithOption(FirstWin)":
+		return d.DecodeWithOption(dst, gojson.DecodeFieldPriorityFirstWin())
+	case "DisallowUnknownFields+Decode":
+		d.DisallowUnknownFields()
+	case "UseNumber+Decode":
+		d.UseNumber()
+	}
+	return d.Decode(dst)
 }
 
 // c07RunCase runs one case; returns "" or the description of a violation.
@@ -699,6 +933,12 @@ func c07RunCase(o *Out, c *c07Case, gc bool) string {
 			return fmt.Sprintf("guard %s changed: %s -> %s", g.desc, clip(g.snap), clip(s))
 		}
 	}
+	o.count("interface_holds_pointer", int64(len(tr.pointees)))
+	for _, g := range tr.pointees {
+		if c07Snap(g.v) != g.snap {
+			o.count("interface_pointee_decoded_into", 1)
+		}
+	}
 	if w := c07SafeWalk(root.Elem()); w != "" {
 		return "malformed destination: " + w
 	}
@@ -736,7 +976,10 @@ func c07RunCase(o *Out, c *c07Case, gc bool) string {
 		return "destination changed after the input buffer was overwritten / GC ran (aliases caller memory)"
 	}
 	// twin with encoding/json, statistics only
-	if err == nil {
+	if err == nil && strings.Contains(c07EntryName(c), "FirstWin") {
+		o.count("decode_ok", 1)
+		o.count("twin_skipped_first_win", 1) // encoding/json has no such option
+	} else if err == nil {
 		o.count("decode_ok", 1)
 		twin := reflect.New(c.typ)
 		c07Init(twin.Elem(), "root", nil, rand.New(rand.NewSource(c.seed)))
@@ -909,6 +1152,30 @@ func c07Generate(o *Out, f func(c *c07Case)) {
 				{Name: "F01", Type: reflect.SliceOf(e)}, c07Canary(2, r), {Name: "F02", Type: reflect.ArrayOf(1, e)}, c07Canary(3, r)}))
 		}
 	}
+	// elements and fields of size zero: every address computed from them is the address of the neighbour
+	{
+		z := reflect.TypeOf(struct{}{})
+		for i := 0; i < 3; i++ {
+			types = append(types, reflect.StructOf([]reflect.StructField{
+				c07Canary(0, r), {Name: "F00", Type: reflect.ArrayOf(0, reflect.TypeOf(uint16(0)))}, c07Canary(1, r),
+				{Name: "F01", Type: reflect.ArrayOf(3, z)}, c07Canary(2, r), {Name: "F02", Type: reflect.SliceOf(z)}, c07Canary(3, r),
+				{Name: "F03", Type: reflect.SliceOf(reflect.ArrayOf(0, reflect.TypeOf(int32(0))))}, c07Canary(4, r), {Name: "F04", Type: z}, c07Canary(5, r),
+				{Name: "F05", Type: reflect.ArrayOf(2, reflect.ArrayOf(0, reflect.TypeOf("")))}, c07Canary(6, r),
+				{Name: "F06", Type: reflect.MapOf(reflect.TypeOf(""), z)}, c07Canary(7, r), {Name: "F07", Type: reflect.PtrTo(z)}}))
+		}
+	}
+	// byte slices ( base64 strings or arrays of numbers ) and the ,string option on every kind it applies to
+	for i := 0; i < 4; i++ {
+		bs := reflect.TypeOf([]uint8{})
+		q := func(j int, t reflect.Type) reflect.StructField {
+			return reflect.StructField{Name: fmt.Sprintf("F%02d", j), Type: t, Tag: reflect.StructTag(fmt.Sprintf(`json:"F%02d,string"`, j))}
+		}
+		types = append(types, reflect.StructOf([]reflect.StructField{
+			c07Canary(0, r), {Name: "F00", Type: bs}, c07Canary(1, r), {Name: "F01", Type: reflect.SliceOf(bs)}, c07Canary(2, r),
+			{Name: "F02", Type: reflect.ArrayOf(2, bs)}, c07Canary(3, r), q(3, reflect.TypeOf("")), c07Canary(4, r),
+			q(4, reflect.TypeOf((*string)(nil))), c07Canary(5, r), q(5, reflect.TypeOf(float64(0))), c07Canary(6, r),
+			q(6, reflect.TypeOf((*int8)(nil))), c07Canary(7, r), q(7, reflect.TypeOf(float32(0))), c07Canary(8, r), q(8, reflect.TypeOf(uint64(0))), c07Canary(9, r)}))
+	}
 	for _, l := range c07Leaves {
 		for _, mk := range []func(reflect.Type) reflect.Type{
 			func(t reflect.Type) reflect.Type { return t },
@@ -920,6 +1187,16 @@ func c07Generate(o *Out, f func(c *c07Case)) {
 			types = append(types, reflect.StructOf([]reflect.StructField{
 				c07Canary(0, r), {Name: "F00", Type: mk(l)}, c07Canary(1, r), {Name: "F01", Type: mk(l)}, c07Canary(2, r)}))
 		}
+	}
+	// interfaces ( c07Init puts pointers to storage with canaries into half of them ) directly, in arrays, slices and maps
+	// ( the field names differ from type to type: what an interface holds initially depends on its place, c07IfaceKind )
+	for i := 0; i < 14; i++ {
+		it := c07Leaves[14]
+		nm := func(j int) string { return fmt.Sprintf("I%02d", 5*i+j) }
+		types = append(types, reflect.StructOf([]reflect.StructField{
+			c07Canary(0, r), {Name: nm(0), Type: it}, c07Canary(1, r), {Name: nm(1), Type: it}, c07Canary(2, r),
+			{Name: nm(2), Type: reflect.ArrayOf(2, it)}, c07Canary(3, r), {Name: nm(3), Type: reflect.SliceOf(it)}, c07Canary(4, r),
+			{Name: nm(4), Type: reflect.PtrTo(it)}, c07Canary(5, r)}))
 	}
 	for i := 0; i < ntypes; i++ {
 		types = append(types, c07Struct(r, 3, 1+r.Intn(5)))
@@ -950,13 +1227,15 @@ func c07Generate(o *Out, f func(c *c07Case)) {
 				c07Value(r, t, "root", c.addr, &b, badRate, 0)
 			}
 			c.doc = []byte(b.String())
-			c.mode = []int{0, 0, 1, 3, 64}[r.Intn(5)]
+			c.mode = []int{0, 0, 1, 3, 64, c07FullReads}[r.Intn(6)]
+			c07PickEntry(r, c)
 			f(c)
 			// truncation keeps the addressed set an upper bound
 			if len(c.doc) > 2 && r.Intn(2) == 0 {
 				c2 := *c
 				c2.doc = c.doc[:1+r.Intn(len(c.doc)-1)]
-				c2.mode = []int{0, 1, 7}[r.Intn(3)]
+				c2.mode = []int{0, 1, 7, c07FullReads}[r.Intn(4)]
+				c07PickEntry(r, &c2)
 				f(&c2)
 			}
 			// byte mutation: only canaries, headers, aliasing
@@ -965,7 +1244,8 @@ func c07Generate(o *Out, f func(c *c07Case)) {
 				c3.doc = append([]byte(nil), c.doc...)
 				c3.doc[r.Intn(len(c3.doc))] = []byte(`"\{}[],:0a u`)[r.Intn(12)]
 				c3.checkUn = false
-				c3.mode = []int{0, 2}[r.Intn(2)]
+				c3.mode = []int{0, 2, c07FullReads}[r.Intn(3)]
+				c07PickEntry(r, &c3)
 				f(&c3)
 			}
 		}
@@ -974,15 +1254,31 @@ func c07Generate(o *Out, f func(c *c07Case)) {
 
 func runC07(o *Out) {
 	debug.SetPanicOnFault(true)
-	c07ArrayCases(o)
-	slicePoolProbe(o, "C07")
-	c07LayoutCases(o)
+	timed := func(name string, f func()) {
+		t0 := time.Now()
+		f()
+		if os.Getenv("AUDIT_TIMING") == "1" { // not by default: the counters of a run are a function of the seed
+			o.count("ms_"+name, time.Since(t0).Milliseconds())
+		}
+	}
+	timed("array_cases", func() { c07ArrayCases(o) })
+	timed("slice_pool", func() { slicePoolProbe(o, "C07") })
+	timed("raw_layout", func() { c07LayoutCases(o) })
+	timed("key_matcher", func() { c07KeyMatcherCases(o, false) })
+	timed("maps", func() { c07MapCases(o, false) })
+	timed("sequences", func() { c07SequenceCases(o, false) })
+	timed("stack", func() { c07StackCases(o, false) })
+	timed("hooks", func() { c07HookCases(o, false) })
 	n := 0
 	c07Generate(o, func(c *c07Case) {
 		n++
 		gc := o.tier == "thorough" || n%4 == 0
 		o.count("documents", 1)
 		o.hist("mode", strconv.Itoa(c.mode))
+		o.hist("entry", c07EntryName(c))
+		if c.failAt >= 0 {
+			o.count("reader_failure_injected", 1)
+		}
 		if c.field >= 0 {
 			o.count("dest_is_inner_field", 1)
 		}
@@ -1004,6 +1300,9 @@ func runC07(o *Out) {
 			o.violation("C07", res, d)
 		}
 	})
+	for k, v := range c07GenStat {
+		o.count(k, v)
+	}
 	// the same cases in a child built with pointer-arithmetic checking
 	if bin := os.Getenv("VERIF_CHECKPTR_BIN"); bin != "" {
 		cmd := exec.Command(bin, "C07child", o.tier, strconv.FormatInt(o.seed, 10), o.dir+"/child")
@@ -1012,6 +1311,10 @@ func runC07(o *Out) {
 		cmd.Stdout = &eb
 		err := cmd.Run()
 		o.count("checkptr_child_runs", 1)
+		if err == nil {
+			// what the child counted ( child:... ): the strata above were decoded under checkptr too
+			mergeChild(o, o.dir+"/child")
+		}
 		if err != nil {
 			tail := eb.String()
 			if len(tail) > 1500 {
@@ -1045,4 +1348,911 @@ func runC07Child(o *Out) {
 		c07Walk(root.Elem(), "root", 0)
 	})
 	o.count("child_documents", int64(n))
+	c07KeyMatcherCases(o, true)
+	c07MapCases(o, true)
+	c07SequenceCases(o, true)
+	c07StackCases(o, true)
+	c07HookCases(o, true)
+}
+
+// ---------- sequences of values read by one Decoder ----------
+//
+// In stream mode the strings of a result point into the Decoder's buffer, which the following calls go on
+// filling, sliding and replacing.  One Decoder reads several values into several destinations ( or into one,
+// again and again ); string literals are as long as the buffer and longer and carry escapes, so that they lie
+// across the places where the buffer is refilled or doubled; the reader delivers pieces of 1 .. 513 bytes or fills
+// every Read completely.  Demanded: what a call stored is still there, byte for byte, after every later call and
+// after a garbage collection; canaries stay; accepted streams of valid values give what encoding/json's Decoder
+// gives.  A value that is not JSON in the middle ends the comparison, not the demands on memory: the Decoder is
+// called again after the error.
+
+type C07Seq struct {
+	CA  [3]byte `json:"-"`
+	S   string
+	CB  [5]byte `json:"-"`
+	L   []string
+	CC  [1]byte `json:"-"`
+	M   map[string]string
+	CD  [2]byte `json:"-"`
+	I   interface{}
+	N   int32
+	CE  [7]byte `json:"-"`
+	R   stdjson.RawMessage
+	CF  [3]byte `json:"-"`
+	B   []byte
+	CG  [1]byte `json:"-"`
+	Num stdjson.Number
+	CH  [4]byte `json:"-"`
+	P   *string
+	CI  [6]byte `json:"-"`
+}
+
+func c07SeqLit(r *rand.Rand, n int) string {
+	var b strings.Builder
+	b.WriteByte('"')
+	for b.Len() < n+1 {
+		switch r.Intn(12) {
+		case 0:
+			b.WriteString(`\n`)
+		case 1:
+			b.WriteString(`\"`)
+		case 2:
+			b.WriteString(`\\`)
+		case 3:
+			b.WriteString(`\u00e9`)
+		case 4:
+			b.WriteString(`\ud83d\ude00`)
+		case 5:
+			b.WriteString("é")
+		case 6:
+			b.WriteString("😀")
+		case 7:
+			b.WriteString(`\/A`)
+		default:
+			k := 1 + r.Intn(40)
+			if k > n+1-b.Len() {
+				k = n + 1 - b.Len()
+			}
+			for i := 0; i < k; i++ {
+				b.WriteByte("abcdefghijklmnopqrstuvwxyz0123456789 _-"[r.Intn(39)])
+			}
+		}
+	}
+	b.WriteByte('"')
+	return b.String()
+}
+
+func c07SeqLen(r *rand.Rand) int {
+	return []int{0, 1, 5, 40, 40, 200, 440 + r.Intn(90), 505 + r.Intn(16), 1000 + r.Intn(40), 3000 + r.Intn(200)}[r.Intn(10)]
+}
+
+func c07SeqWS(r *rand.Rand) string {
+	if r.Intn(20) == 0 {
+		return strings.Repeat(" ", 400+r.Intn(300))
+	}
+	return genWS(r)
+}
+
+// one value for a destination of kind k: 0 C07Seq, 1 []string, 2 string, 3 interface{}
+func c07SeqValue(r *rand.Rand, k int) string {
+	lit := func() string { return c07SeqLit(r, c07SeqLen(r)) }
+	short := func() string { return c07SeqLit(r, r.Intn(30)) }
+	list := func() string {
+		n := r.Intn(5)
+		var es []string
+		for i := 0; i < n; i++ {
+			es = append(es, c07SeqWS(r)+lit())
+		}
+		return "[" + strings.Join(es, ",") + c07SeqWS(r) + "]"
+	}
+	switch k {
+	case 1:
+		return list()
+	case 2:
+		return lit()
+	case 3:
+		return []string{lit(), list(), `{"k":` + lit() + `,"l":` + list() + `}`, "12.5", "null", "true"}[r.Intn(6)]
+	}
+	ms := []string{
+		`"S":` + c07SeqWS(r) + lit(),
+		`"L":` + list(),
+		`"M":{` + short() + `:` + lit() + `,"k":` + short() + `}`,
+		`"I":` + c07SeqValue(r, 3),
+		`"N":` + strconv.Itoa(r.Intn(100000)),
+		`"R":` + c07SeqWS(r) + []string{`{"raw": [1, 2 , ` + lit() + `] }`, list(), lit(), `-1.5e3`}[r.Intn(4)],
+		`"B":"` + []string{"", "AQID", "QUJDREVGRw==", strings.Repeat("QUJD", 100+r.Intn(200))}[r.Intn(4)] + `"`,
+		`"Num":` + []string{"0", "-12.50", "1e3", "123456789012345678901234567890"}[r.Intn(4)],
+		`"P":` + []string{lit(), "null"}[r.Intn(2)],
+		`"unknown` + strconv.Itoa(r.Intn(3)) + `":` + []string{lit(), list(), `{"a":{"b":` + lit() + `}}`}[r.Intn(3)],
+		`"s":` + short(), // the field S in another case
+	}
+	r.Shuffle(len(ms), func(i, j int) { ms[i], ms[j] = ms[j], ms[i] })
+	ms = ms[:r.Intn(len(ms)+1)]
+	return "{" + c07SeqWS(r) + strings.Join(ms, c07SeqWS(r)+","+c07SeqWS(r)) + c07SeqWS(r) + "}"
+}
+
+func c07SeqNew(k int) reflect.Value {
+	switch k {
+	case 1:
+		return reflect.New(reflect.TypeOf([]string{}))
+	case 2:
+		return reflect.New(reflect.TypeOf(""))
+	case 3:
+		return reflect.New(c07Leaves[14])
+	}
+	v := reflect.New(reflect.TypeOf(C07Seq{}))
+	for i := 0; i < v.Elem().NumField(); i++ {
+		if c07IsCanary(v.Elem().Type().Field(i)) {
+			f := v.Elem().Field(i)
+			for j := 0; j < f.Len(); j++ {
+				f.Index(j).SetUint(0xA5)
+			}
+		}
+	}
+	return v
+}
+
+func c07SeqCanaries(v reflect.Value) string {
+	if v.Kind() != reflect.Struct {
+		return ""
+	}
+	for i := 0; i < v.NumField(); i++ {
+		if c07IsCanary(v.Type().Field(i)) {
+			f := v.Field(i)
+			for j := 0; j < f.Len(); j++ {
+				if f.Index(j).Uint() != 0xA5 {
+					return fmt.Sprintf("canary %s byte %d changed to %#x", v.Type().Field(i).Name, j, f.Index(j).Uint())
+				}
+			}
+		}
+	}
+	return ""
+}
+
+func c07SequenceCases(o *Out, decodeOnly bool) {
+	r := o.rng
+	rounds := 150
+	if o.tier == "thorough" {
+		rounds = 4000
+	}
+	for round := 0; round < rounds; round++ {
+		nv := 2 + r.Intn(5)
+		kinds := make([]int, nv)
+		var stream strings.Builder
+		broken := -1 // index of a value that is not JSON
+		if r.Intn(5) == 0 {
+			broken = r.Intn(nv)
+		}
+		same := r.Intn(4) == 0 // every value goes into one destination
+		k0 := []int{0, 0, 0, 1, 2, 3}[r.Intn(6)]
+		for i := range kinds {
+			kinds[i] = []int{0, 0, 0, 1, 2, 3}[r.Intn(6)]
+			if same {
+				kinds[i] = k0
+			}
+			val := c07SeqValue(r, kinds[i])
+			if i == broken && len(val) > 2 {
+				switch r.Intn(3) {
+				case 0:
+					val = val[:1+r.Intn(len(val)-1)] + " "
+				case 1:
+					val = val[:len(val)-1] + "#" + val[len(val)-1:]
+				default:
+					val = strings.Replace(val, ":", " ", 1)
+				}
+			}
+			stream.WriteString(val)
+			stream.WriteString([]string{"", " ", "\n", "\r\n\t ", strings.Repeat("\n", 520)}[r.Intn(5)])
+		}
+		in := []byte(stream.String())
+		size := []int{1, 7, 64, 511, 512, 513, c07FullReads, c07FullReads}[r.Intn(8)]
+		failAt := -1
+		if r.Intn(10) == 0 {
+			failAt = r.Intn(len(in))
+		}
+		useNumber := r.Intn(6) == 0
+		det := map[string]string{"case_kind": "sequence of values through one Decoder", "stream": clip(string(in)), "stream_hex_len": strconv.Itoa(len(in)),
+			"kinds": fmt.Sprint(kinds), "piece_size": strconv.Itoa(size), "same_destination": fmt.Sprint(same), "broken_value": strconv.Itoa(broken),
+			"reader_fails_at": strconv.Itoa(failAt), "use_number": fmt.Sprint(useNumber), "round": strconv.Itoa(round)}
+		o.current(det)
+		dec := gojson.NewDecoder(&pieceReader{b: append([]byte(nil), in...), size: size, failAt: failAt})
+		sdec := stdjson.NewDecoder(&pieceReader{b: append([]byte(nil), in...), size: size, failAt: failAt})
+		if useNumber {
+			dec.UseNumber()
+			sdec.UseNumber()
+		}
+		var dsts []reflect.Value
+		var snaps []string
+		var sameDst, sameTwin reflect.Value
+		if same {
+			sameDst, sameTwin = c07SeqNew(k0), c07SeqNew(k0)
+		}
+		bad := ""
+		comparing := true
+		calls := nv
+		if broken >= 0 || failAt >= 0 {
+			calls = nv + 2 // go on calling after the error
+		}
+		perr := safeCall(func() error {
+			for i := 0; i < calls && bad == ""; i++ {
+				k := k0
+				if i < nv {
+					k = kinds[i]
+				}
+				d, tw := sameDst, sameTwin
+				if !same {
+					d, tw = c07SeqNew(k), c07SeqNew(k)
+				}
+				var err error
+				switch r.Intn(3) {
+				case 0:
+					err = dec.Decode(d.Interface())
+				case 1:
+					err = dec.DecodeContext(context.Background(), d.Interface())
+				default:
+					err = dec.DecodeWithOption(d.Interface())
+				}
+				o.count("sequence_decode_calls", 1)
+				if r.Intn(4) == 0 {
+					dec.More()
+				}
+				if r.Intn(6) == 0 {
+					dec.InputOffset()
+					dec.Buffered()
+				}
+				if decodeOnly {
+					c07Walk(d.Elem(), "value", 0)
+					continue
+				}
+				if w := c07SafeWalk(d.Elem()); w != "" {
+					bad = fmt.Sprintf("value %d: malformed destination: %s", i, w)
+					break
+				}
+				if comparing {
+					serr := sdec.Decode(tw.Interface())
+					if err != nil || serr != nil {
+						comparing = false // what follows an error is not compared
+						if (err == nil) != (serr == nil) {
+							o.count("sequence_verdicts_differ", 1)
+						}
+					} else {
+						o.count("sequence_values_compared", 1)
+						if g, w := c07Snap(d.Elem()), c07Snap(tw.Elem()); g != w {
+							p := 0
+							for p < len(g) && p < len(w) && g[p] == w[p] {
+								p++
+							}
+							if p > 30 {
+								p -= 30
+							} else {
+								p = 0
+							}
+							bad = fmt.Sprintf("value %d differs from encoding/json's Decoder on the same stream: ...%s, encoding/json ...%s", i, clip(g[p:]), clip(w[p:]))
+							break
+						}
+					}
+				}
+				if err != nil {
+					o.count("sequence_decode_err", 1)
+				}
+				if !same {
+					dsts = append(dsts, d)
+					snaps = append(snaps, c07Snap(d.Elem()))
+				}
+				// everything stored by the earlier calls is still there
+				for j := 0; j < len(dsts)-1; j++ {
+					if s := c07Snap(dsts[j].Elem()); s != snaps[j] {
+						p := 0
+						for p < len(s) && p < len(snaps[j]) && s[p] == snaps[j][p] {
+							p++
+						}
+						if p > 30 {
+							p -= 30
+						} else {
+							p = 0
+						}
+						bad = fmt.Sprintf("the result of call %d changed during call %d: ...%s -> ...%s", j, i, clip(snaps[j][p:]), clip(s[p:]))
+						break
+					}
+				}
+			}
+			return nil
+		})
+		o.count("sequence_cases", 1)
+		o.hist("sequence_piece_size", strconv.Itoa(size))
+		if decodeOnly {
+			continue
+		}
+		if perr != nil && bad == "" {
+			bad = "the Decoder panicked: " + perr.Error()
+		}
+		if bad == "" {
+			for i := range in {
+				in[i] = 'X'
+			}
+			runtime.GC()
+			all := dsts
+			if same {
+				all = []reflect.Value{sameDst}
+			}
+			for j, d := range all {
+				if cb := c07SeqCanaries(d.Elem()); cb != "" {
+					bad = fmt.Sprintf("value %d: %s", j, cb)
+				} else if w := c07SafeWalk(d.Elem()); w != "" {
+					bad = fmt.Sprintf("value %d after GC: malformed destination: %s", j, w)
+				} else if !same && c07Snap(d.Elem()) != snaps[j] {
+					bad = fmt.Sprintf("the result of call %d changed after the garbage collection", j)
+				}
+			}
+		}
+		if bad != "" {
+			det["detail"] = bad
+			det["stream_hex"] = hx(in)
+			if len(in) > 6000 {
+				det["stream_hex"] = "(long)"
+			}
+			o.violation("C07", bad, det)
+		}
+	}
+}
+
+// ---------- a destination on the goroutine stack ( UnmarshalNoEscape ) ----------
+//
+// UnmarshalNoEscape hides the destination from escape analysis: a local variable stays on the stack of the
+// caller.  A document nested thousands of levels deep makes the decoder recurse until the runtime moves the
+// stack to a larger one in the middle of the call: every address of the destination held as a pointer is
+// adjusted by the runtime, an address held as an integer ( or in the heap ) is not, and a store through it lands
+// in the old stack.  The members that follow the deep one in the document are stored after the move.  Demanded:
+// canaries intact and the whole value equal to what encoding/json decodes into a heap twin.
+
+type C07StackL2 struct {
+	CA  [3]byte `json:"-"`
+	Any interface{}
+	CB  [1]byte `json:"-"`
+	K   uint8
+	CC  [2]byte `json:"-"`
+	T   string
+	CD  [5]byte `json:"-"`
+	Arr [3]uint16
+	CE  [1]byte `json:"-"`
+}
+
+type C07StackL1 struct {
+	CA   [1]byte `json:"-"`
+	In   C07StackL2
+	CB   [2]byte `json:"-"`
+	Pair [2]C07StackL2
+	CC   [3]byte `json:"-"`
+	Z    int16
+	CD   [1]byte `json:"-"`
+}
+
+type C07Rec struct {
+	V    int
+	Next *C07Rec
+}
+
+type C07Stack struct {
+	CA [8]byte `json:"-"`
+	A  interface{}
+	CB [3]byte `json:"-"`
+	L1 C07StackL1
+	CC [5]byte `json:"-"`
+	B  int32
+	CD [1]byte `json:"-"`
+	S  string
+	CE [2]byte `json:"-"`
+	R  *C07Rec
+	CF [8]byte `json:"-"`
+	M  map[string]int
+	CG [8]byte `json:"-"`
+	Q  []uint8
+	CH [8]byte `json:"-"`
+}
+
+func c07StackPaint(x *C07Stack) {
+	c := func(b []byte) {
+		for i := range b {
+			b[i] = 0xA5
+		}
+	}
+	c(x.CA[:])
+	c(x.CB[:])
+	c(x.CC[:])
+	c(x.CD[:])
+	c(x.CE[:])
+	c(x.CF[:])
+	c(x.CG[:])
+	c(x.CH[:])
+	c(x.L1.CA[:])
+	c(x.L1.CB[:])
+	c(x.L1.CC[:])
+	c(x.L1.CD[:])
+	for _, l := range []*C07StackL2{&x.L1.In, &x.L1.Pair[0], &x.L1.Pair[1]} {
+		c(l.CA[:])
+		c(l.CB[:])
+		c(l.CC[:])
+		c(l.CD[:])
+		c(l.CE[:])
+		l.K, l.T, l.Arr = 0x5A, "init", [3]uint16{0x5A5A, 0x5A5A, 0x5A5A}
+	}
+	x.B, x.S, x.L1.Z = 0x5A5A5A5A, "init", 0x5A5A
+}
+
+// c07StackDecode decodes into a local variable and hands out a copy of it, its address before and after the call
+// and the address of another local ( to show that the variable was on the stack )
+//
+//go:noinline
+func c07StackDecode(doc []byte) (res C07Stack, before, after, marker uintptr, err error) {
+	var mk [1]byte
+	var x C07Stack
+	c07StackPaint(&x)
+	before = uintptr(unsafe.Pointer(&x))
+	err = gojson.UnmarshalNoEscape(doc, &x)
+	after = uintptr(unsafe.Pointer(&x))
+	return x, before, after, uintptr(unsafe.Pointer(&mk)), err
+}
+
+func c07StackDeep(r *rand.Rand, depth int) string {
+	switch r.Intn(3) {
+	case 0:
+		return strings.Repeat("[", depth) + `"bottom"` + strings.Repeat("]", depth)
+	case 1:
+		return strings.Repeat(`{"a":`, depth) + `1` + strings.Repeat("}", depth)
+	}
+	return strings.Repeat(`[{"k":`, depth/2) + `null` + strings.Repeat("}]", depth/2)
+}
+
+func c07StackCases(o *Out, decodeOnly bool) {
+	r := o.rng
+	rounds := 40
+	if o.tier == "thorough" {
+		rounds = 600
+	}
+	for round := 0; round < rounds; round++ {
+		dp := func() int { return []int{0, 1, 30, 300, 1500, 3000}[r.Intn(6)] }
+		l2 := func() string {
+			ms := []string{`"Any":` + c07StackDeep(r, dp()), `"K":7`, `"T":"stored after the deep member"`, `"Arr":[1,2]`}
+			r.Shuffle(len(ms), func(i, j int) { ms[i], ms[j] = ms[j], ms[i] })
+			return "{" + strings.Join(ms[:1+r.Intn(len(ms))], ",") + "}"
+		}
+		chain := func(n int) string {
+			var b strings.Builder
+			for i := 0; i < n; i++ {
+				fmt.Fprintf(&b, `{"V":%d,"Next":`, i)
+			}
+			b.WriteString("null" + strings.Repeat("}", n))
+			return b.String()
+		}
+		ms := []string{`"A":` + c07StackDeep(r, dp()), `"L1":{"In":` + l2() + `,"Pair":[` + l2() + `,` + l2() + `],"Z":-5}`, `"B":42`, `"S":"tail \n string"`,
+			`"R":` + chain(1+dp()/2), `"M":{"a":1,"b":2}`, `"Q":"AQID"`, `"L1":{"Pair":[{"K":9}],"In":{"Arr":[7,8,9,10]}}`}
+		r.Shuffle(len(ms), func(i, j int) { ms[i], ms[j] = ms[j], ms[i] })
+		doc := []byte("{" + strings.Join(ms[:2+r.Intn(len(ms)-1)], ",") + "}")
+		if r.Intn(8) == 0 {
+			doc = doc[:len(doc)/2+r.Intn(len(doc)/2)]
+		}
+		det := map[string]string{"case_kind": "destination on the stack, UnmarshalNoEscape", "doc": clip(string(doc)), "doc_len": strconv.Itoa(len(doc)), "round": strconv.Itoa(round)}
+		if len(doc) < 3000 {
+			det["doc_hex"] = hx(doc)
+		}
+		o.current(det)
+		var res C07Stack
+		var before, after, marker uintptr
+		var err error
+		var perr error
+		done := make(chan struct{})
+		go func() { // a new goroutine: a small stack
+			defer close(done)
+			perr = safeCall(func() error {
+				res, before, after, marker, err = c07StackDecode(append([]byte(nil), doc...))
+				return nil
+			})
+		}()
+		<-done
+		o.count("stack_destination_cases", 1)
+		if perr != nil {
+			det["panic"] = perr.Error()
+			o.violation("C07", "decoding into a destination on the stack panicked", det)
+			continue
+		}
+		if d := int64(after) - int64(marker); d > -1<<16 && d < 1<<16 {
+			o.count("stack_destination_on_stack", 1)
+		}
+		if before != after {
+			o.count("stack_moved_during_decode", 1)
+		}
+		if decodeOnly {
+			c07Walk(reflect.ValueOf(&res).Elem(), "root", 0)
+			continue
+		}
+		bad := ""
+		var twin C07Stack
+		c07StackPaint(&twin)
+		serr := stdjson.Unmarshal(doc, &twin)
+		got := reflect.ValueOf(&res).Elem()
+		tr := &c07Track{}
+		// the canaries of the copy ( c07Init is not used: only their places are wanted )
+		var walkCan func(v reflect.Value, path string)
+		walkCan = func(v reflect.Value, path string) {
+			switch v.Kind() {
+			case reflect.Struct:
+				for i := 0; i < v.NumField(); i++ {
+					f := v.Type().Field(i)
+					if c07IsCanary(f) {
+						tr.canaries = append(tr.canaries, c07Region{v.Field(i).Addr().UnsafePointer(), v.Field(i).Len(), path + "." + f.Name, tr.elem, tr.elemN})
+					} else {
+						walkCan(v.Field(i), path+"."+f.Name)
+					}
+				}
+			case reflect.Array:
+				for i := 0; i < v.Len(); i++ {
+					pe, pn := tr.elem, tr.elemN
+					tr.elem, tr.elemN = v.Index(i).Addr().UnsafePointer(), int(v.Type().Elem().Size())
+					walkCan(v.Index(i), path+"["+strconv.Itoa(i)+"]")
+					tr.elem, tr.elemN = pe, pn
+				}
+			}
+		}
+		walkCan(got, "root")
+		mine := tr.canaries
+		tr.canaries = nil
+		walkCan(reflect.ValueOf(&twin).Elem(), "root")
+		for ci, cn := range mine {
+			bs := unsafe.Slice((*byte)(cn.p), cn.n)
+			for i, x := range bs {
+				if x != 0xA5 && bad == "" {
+					// an element of Pair that a short JSON array zeroes as a whole loses its canaries legitimately; a later
+					// duplicate of the member may fill the element again: then the canary is zero as a whole, and
+					// in encoding/json's twin too ( which stores nothing when it refuses the document )
+					if cn.elem != nil && c07AllZero(bs) && (c07AllZero(unsafe.Slice((*byte)(cn.elem), cn.elemN)) || serr != nil ||
+						c07AllZero(unsafe.Slice((*byte)(tr.canaries[ci].p), cn.n))) {
+						continue
+					}
+					bad = fmt.Sprintf("canary %s byte %d of %d changed to %#x", cn.desc, i, cn.n, x)
+				}
+			}
+		}
+		if w := c07SafeWalk(got); bad == "" && w != "" {
+			bad = "malformed destination: " + w
+		}
+		if bad == "" && err == nil && serr == nil {
+			o.count("stack_destination_compared", 1)
+			if g, w := c07Snap(got), c07Snap(reflect.ValueOf(&twin).Elem()); g != w {
+				p := 0
+				for p < len(g) && p < len(w) && g[p] == w[p] {
+					p++
+				}
+				if p > 40 {
+					p -= 40
+				} else {
+					p = 0
+				}
+				bad = fmt.Sprintf("the value decoded on the stack differs from encoding/json's on the heap: ...%s, encoding/json ...%s", clip(g[p:]), clip(w[p:]))
+			}
+		} else if (err == nil) != (serr == nil) {
+			o.count("stack_destination_verdicts_differ", 1)
+		}
+		if bad != "" {
+			det["detail"] = bad
+			det["stack_moved"] = fmt.Sprint(before != after)
+			o.violation("C07", bad, det)
+		}
+	}
+}
+
+// ---------- a garbage collection in the middle of a call; Unmarshalers that scribble over their argument ----------
+//
+// The methods of C07Hook, C07TextI and C07HookKey are called by the decoder in the middle of its work: while
+// strings of the result point into its buffer, while elements wait in the pooled array of a slice decoder,
+// while a map is half filled.  In "nasty" mode the method overwrites the bytes it was given, fills the spare
+// capacity behind them, runs a garbage collection and fills freed memory with fresh allocations.  Nothing of
+// that may show: the argument is a copy and everything the decoder has built so far is reachable through
+// pointers.  Demanded: canaries intact, headers well formed, and the result equal to what encoding/json gives
+// with well-behaved methods.
+
+var c07HookNasty bool
+var c07HookCalls, c07HookGCs int64
+var c07HookSeq int     // number of the method call within the current Unmarshal / Decode
+var c07HookGCAt [2]int // the two calls that collect garbage ( every call would make the quick tier slow )
+var c07HookGarbage [][]byte
+
+// c07HookScribbleText: also the UnmarshalText methods overwrite their argument.  Off by default: in buffer mode the
+// library hands UnmarshalText a part of its own buffer ( see the notes of the audit; encoding/json does the same with
+// the caller's input ), so that a method which changes its argument changes the rest of the document.
+var c07HookScribbleText = os.Getenv("AUDIT_OPEN") == "1"
+
+func c07HookAct(b []byte, text bool) {
+	c07HookCalls++
+	if !c07HookNasty {
+		return
+	}
+	if !text || c07HookScribbleText {
+		for i := range b {
+			b[i] = 'X'
+		}
+		bb := b[:cap(b)]
+		for i := len(b); i < len(bb); i++ {
+			bb[i] = 'Y'
+		}
+	}
+	c07HookSeq++
+	if c07HookSeq != c07HookGCAt[0] && c07HookSeq != c07HookGCAt[1] {
+		return
+	}
+	runtime.GC()
+	c07HookGCs++
+	c07HookGarbage = c07HookGarbage[:0]
+	for _, n := range []int{8, 16, 24, 32, 48, 64, 96, 128, 256, 512, 1024, 2048} {
+		for k := 0; k < 6; k++ {
+			g := make([]byte, n)
+			for i := range g {
+				g[i] = 'Z'
+			}
+			c07HookGarbage = append(c07HookGarbage, g)
+		}
+	}
+}
+
+type C07Hook struct {
+	CA  [2]byte `json:"-"`
+	Got string
+	CB  [3]byte `json:"-"`
+	N   int
+}
+
+func (h *C07Hook) UnmarshalJSON(b []byte) error {
+	h.Got = string(b)
+	h.N++
+	c07HookAct(b, false)
+	return nil
+}
+
+type C07TextI int8
+
+func (t *C07TextI) UnmarshalText(b []byte) error {
+	*t = C07TextI(len(b))
+	c07HookAct(b, true)
+	return nil
+}
+
+type C07HookKey struct{ A, B byte }
+
+func (k *C07HookKey) UnmarshalText(b []byte) error {
+	if len(b) > 0 {
+		k.A = b[0]
+	}
+	k.B = byte(len(b))
+	c07HookAct(b, true)
+	return nil
+}
+
+type C07HookDst struct {
+	CA     [3]byte `json:"-"`
+	Before string
+	CB     [1]byte `json:"-"`
+	H      C07Hook
+	CC     [2]byte `json:"-"`
+	After  []string
+	CD     [5]byte `json:"-"`
+	M      map[string]C07Hook
+	CE     [1]byte `json:"-"`
+	L      []C07Hook
+	CF     [3]byte `json:"-"`
+	TI     C07TextI
+	CG     [7]byte `json:"-"`
+	PH     *C07Hook
+	CH     [2]byte `json:"-"`
+	KM     map[C07HookKey]string
+	CI     [1]byte `json:"-"`
+	Arr    [2]C07Hook
+	CJ     [3]byte `json:"-"`
+	Tail   string
+	CK     [4]byte `json:"-"`
+	Num    stdjson.Number
+	CL     [1]byte `json:"-"`
+	R      stdjson.RawMessage
+	CM     [5]byte `json:"-"`
+	I      interface{}
+	CN     [2]byte `json:"-"`
+	LL     [][]string
+	CO     [6]byte `json:"-"`
+}
+
+// c07Canaries paints ( paint ) or lists the canaries of the storage reachable from v without leaving what exists before a
+// call: struct fields, array elements, pointers, slice elements, pointers held by interfaces
+func c07Canaries(v reflect.Value, path string, tr *c07Track, paint bool) {
+	switch v.Kind() {
+	case reflect.Struct:
+		for i := 0; i < v.NumField(); i++ {
+			f := v.Type().Field(i)
+			if c07IsCanary(f) {
+				if paint {
+					for j := 0; j < v.Field(i).Len(); j++ {
+						v.Field(i).Index(j).SetUint(0xA5)
+					}
+				}
+				tr.canaries = append(tr.canaries, c07Region{v.Field(i).Addr().UnsafePointer(), v.Field(i).Len(), path + "." + f.Name, tr.elem, tr.elemN})
+			} else {
+				c07Canaries(v.Field(i), path+"."+f.Name, tr, paint)
+			}
+		}
+	case reflect.Array:
+		for i := 0; i < v.Len(); i++ {
+			pe, pn := tr.elem, tr.elemN
+			tr.elem, tr.elemN = v.Index(i).Addr().UnsafePointer(), int(v.Type().Elem().Size())
+			c07Canaries(v.Index(i), path+"["+strconv.Itoa(i)+"]", tr, paint)
+			tr.elem, tr.elemN = pe, pn
+		}
+	case reflect.Slice:
+		for i := 0; i < v.Len(); i++ {
+			c07Canaries(v.Index(i), path+"["+strconv.Itoa(i)+"]", tr, paint)
+		}
+	case reflect.Ptr, reflect.Interface:
+		if !v.IsNil() && (v.Kind() == reflect.Ptr || v.Elem().Kind() == reflect.Ptr) {
+			pe, pn := tr.elem, tr.elemN
+			tr.elem, tr.elemN = nil, 0
+			c07Canaries(v.Elem(), path+".*", tr, paint)
+			tr.elem, tr.elemN = pe, pn
+		}
+	}
+}
+
+func c07HookNew(r *rand.Rand, seed int64) (reflect.Value, *c07Track) {
+	rr := rand.New(rand.NewSource(seed))
+	d := &C07HookDst{Before: strings.Clone("init before"), Tail: strings.Clone("init tail"), TI: 0x5A, Num: "5"}
+	if rr.Intn(2) == 0 {
+		d.After = []string{strings.Clone("a0"), strings.Clone("a1"), strings.Clone("a2")}[:2]
+		d.L = make([]C07Hook, 2, 5)
+		d.L[0].Got, d.L[1].Got = "l0", "l1"
+		d.M = map[string]C07Hook{"old": {Got: "kept"}}
+		d.KM = map[C07HookKey]string{{1, 2}: "old"}
+		d.PH = &C07Hook{Got: "ph"}
+		d.I = &C07Hook{Got: "behind the interface"}
+		d.LL = [][]string{{strings.Clone("x")}, nil}
+		d.R = stdjson.RawMessage(strings.Clone(`{"old":"raw message of some length ......"}`))
+	}
+	tr := &c07Track{}
+	v := reflect.ValueOf(d)
+	c07Canaries(v.Elem(), "root", tr, true)
+	return v, tr
+}
+
+func c07HookDoc(r *rand.Rand) string {
+	lit := func() string { return c07SeqLit(r, []int{0, 3, 20, 20, 100, 600}[r.Intn(6)]) }
+	hv := func() string {
+		return []string{`{"k":` + lit() + `}`, `[1, 2 ,3]`, lit(), `12.5`, `null`, `{"deep":{"er":[` + lit() + `]}}`, `true`}[r.Intn(7)]
+	}
+	strs := func() string {
+		n := r.Intn(5)
+		var es []string
+		for i := 0; i < n; i++ {
+			es = append(es, lit())
+		}
+		return "[" + strings.Join(es, ", ") + "]"
+	}
+	hooks := func() string {
+		n := r.Intn(6)
+		var es []string
+		for i := 0; i < n; i++ {
+			es = append(es, hv())
+		}
+		return "[" + strings.Join(es, ",") + "]"
+	}
+	ms := []string{
+		`"Before":` + lit(), `"H":` + hv(), `"After":` + strs(),
+		`"M":{"a":` + hv() + `,` + c07SeqLit(r, 5) + `:` + hv() + `,"old":` + hv() + `}`,
+		`"L":` + hooks(), `"TI":` + []string{lit(), `"abc"`, `null`}[r.Intn(3)], `"PH":` + hv(),
+		`"KM":{"xy":` + lit() + `,"` + strings.Repeat("k", 1+r.Intn(40)) + `":` + lit() + `}`,
+		`"Arr":[` + hv() + `,` + hv() + `]`, `"Tail":` + lit(), `"Num":-12.5e2`, `"R":` + []string{hv(), strs()}[r.Intn(2)],
+		`"I":` + hv(), `"LL":[` + strs() + `,` + strs() + `,` + strs() + `]`, `"unknown":` + hv(), `"H":` + hv(),
+	}
+	r.Shuffle(len(ms), func(i, j int) { ms[i], ms[j] = ms[j], ms[i] })
+	ms = ms[:2+r.Intn(len(ms)-1)]
+	return "{" + genWS(r) + strings.Join(ms, genWS(r)+","+genWS(r)) + genWS(r) + "}"
+}
+
+func c07HookCases(o *Out, decodeOnly bool) {
+	r := o.rng
+	rounds := 90
+	if o.tier == "thorough" {
+		rounds = 3000
+	}
+	defer func() { c07HookNasty = false; c07HookGarbage = nil }()
+	for round := 0; round < rounds; round++ {
+		doc := c07HookDoc(r)
+		if r.Intn(8) == 0 {
+			doc = doc[:1+r.Intn(len(doc)-1)]
+		}
+		c := &c07Case{doc: []byte(doc), mode: []int{0, 0, 1, 5, 64, c07FullReads}[r.Intn(6)], failAt: -1}
+		c07PickEntry(r, c)
+		c.failAt = -1
+		seed := r.Int63()
+		det := map[string]string{"case_kind": "garbage collection and scribbling inside Unmarshaler methods", "doc": clip(doc), "doc_hex": hx([]byte(doc)),
+			"mode": strconv.Itoa(c.mode), "entry": c07EntryName(c), "init_seed": strconv.FormatInt(seed, 10), "round": strconv.Itoa(round)}
+		if len(doc) > 3000 {
+			det["doc_hex"] = "(long)"
+		}
+		o.current(det)
+		dst, tr := c07HookNew(r, seed)
+		in := append([]byte(nil), c.doc...)
+		var err error
+		c07HookNasty = true
+		c07HookSeq, c07HookGCAt = 0, [2]int{1 + r.Intn(4), 1 + r.Intn(12)}
+		gcs := c07HookGCs
+		perr := safeCall(func() error { err = c07Decode(c, dst.Interface(), in, false); return nil })
+		c07HookNasty = false
+		o.count("hook_cases", 1)
+		o.count("hook_gc_inside_decode", c07HookGCs-gcs)
+		if decodeOnly {
+			c07Walk(dst.Elem(), "root", 0)
+			continue
+		}
+		bad := ""
+		if perr != nil {
+			bad = "decoding panicked: " + perr.Error()
+		} else if !bytes.Equal(in, c.doc) {
+			bad = "input bytes modified by decoding"
+		}
+		for _, cn := range tr.canaries {
+			bs := unsafe.Slice((*byte)(cn.p), cn.n)
+			for i, x := range bs {
+				if x != 0xA5 && bad == "" {
+					bad = fmt.Sprintf("canary %s byte %d of %d changed to %#x", cn.desc, i, cn.n, x)
+				}
+			}
+		}
+		if w := c07SafeWalk(dst.Elem()); bad == "" && w != "" {
+			bad = "malformed destination: " + w
+		}
+		if bad == "" {
+			snap := c07Snap(dst.Elem())
+			for i := range in {
+				in[i] = 'X'
+			}
+			runtime.GC()
+			if w := c07SafeWalk(dst.Elem()); w != "" {
+				bad = "malformed destination after GC: " + w
+			} else if c07Snap(dst.Elem()) != snap {
+				bad = "destination changed after the input buffer was overwritten / GC ran"
+			}
+			if bad == "" && err == nil && !strings.Contains(c07EntryName(c), "FirstWin") {
+				twin, _ := c07HookNew(r, seed)
+				if serr := c07Decode(c, twin.Interface(), append([]byte(nil), c.doc...), true); serr == nil {
+					o.count("hook_twin_compared", 1)
+					if w := c07Snap(twin.Elem()); w != snap {
+						p := 0
+						for p < len(w) && p < len(snap) && w[p] == snap[p] {
+							p++
+						}
+						if p > 40 {
+							p -= 40
+						} else {
+							p = 0
+						}
+						bad = fmt.Sprintf("the result differs from encoding/json's with well-behaved methods: ...%s, encoding/json ...%s", clip(snap[p:]), clip(w[p:]))
+					}
+				} else {
+					o.count("hook_twin_std_rejects", 1)
+				}
+			}
+		}
+		if err != nil {
+			o.count("hook_decode_err", 1)
+			twin, _ := c07HookNew(r, seed)
+			if c07Decode(c, twin.Interface(), append([]byte(nil), c.doc...), true) == nil {
+				o.count("hook_rejected_but_encoding_json_accepts", 1) // statistics: which texts are accepted is not this property's business
+				if o.Stats["hook_rejected_but_encoding_json_accepts"] <= 3 {
+					o.Notes = append(o.Notes, fmt.Sprintf("hooks: go-json rejects (%v), encoding/json accepts: entry=%s mode=%d doc=%s", err, c07EntryName(c), c.mode, clip(doc)))
+				}
+				if c07HookScribbleText && bad == "" && perr == nil {
+					// AUDIT_OPEN=1: the only thing that differs from the accepting run is that the methods wrote to the bytes they were given
+					bad = fmt.Sprintf("a method that wrote to ( or behind ) the bytes it was given changed how the rest of the document was read: %v; with well-behaved methods the document is accepted", err)
+				}
+			}
+		}
+		if bad != "" {
+			det["detail"] = bad
+			o.violation("C07", bad, det)
+		}
+	}
 }
